@@ -214,11 +214,16 @@ func installFaults(p *env.Provider, f *faultCtl) {
 // the fixture and the grid
 
 type faultFixture struct {
-	ctl  *faultCtl
-	p    *env.Provider
-	pre  env.State // inside the block whose EndBlock sends packets; its successor's BeginBlock launches / deletes / pays
-	ids  []string
-	desc map[string]string
+	// per-block-boundary cache of the reference slicings (see judge)
+	cacheValid      bool // reset by the caller for every new block boundary
+	cPreOwn, cOkOwn map[string]map[string][]byte
+	cOkGlobal       map[string][]byte
+	cOkBank         map[string][]env.KV
+	ctl             *faultCtl
+	p               *env.Provider
+	pre             env.State // inside the block whose EndBlock sends packets; its successor's BeginBlock launches / deletes / pays
+	ids             []string
+	desc            map[string]string
 }
 
 func buildFaultFixture() (*faultFixture, error) {
@@ -337,9 +342,13 @@ func buildFaultFixture() (*faultFixture, error) {
 // runBlock runs one full application block boundary (EndBlock of the current block, BeginBlock of the
 // next) on a branch of pre, with external call number failAt (armed region only) failing.
 func (ff *faultFixture) runBlock(failAt int) (post env.State, calls []string, fail string) {
-	s := ff.pre.Branch()
+	return ff.runBlockFrom(ff.pre, failAt, 5*time.Second)
+}
+
+func (ff *faultFixture) runBlockFrom(pre env.State, failAt int, dt time.Duration) (post env.State, calls []string, fail string) {
+	s := pre.Branch()
 	*ff.ctl = faultCtl{Armed: true, Fail: failAt}
-	r := s.NextBlock(5*time.Second, nil)
+	r := s.NextBlock(dt, nil)
 	calls = ff.ctl.Calls
 	*ff.ctl = faultCtl{}
 	return s, calls, r.Halt()
@@ -348,7 +357,7 @@ func (ff *faultFixture) runBlock(failAt int) (post env.State, calls []string, fa
 func (ff *faultFixture) slices(s env.State) (own map[string]map[string][]byte, global map[string][]byte) {
 	own = map[string]map[string][]byte{}
 	global = map[string][]byte{}
-	iw := &isoWorker{ids: ff.ids}
+	iw := &isoWorker{ids: ff.idsAt(s)}
 	for _, kv := range env.Dump(s.Ctx, ff.p.PApp, "provider") {
 		// light-client ids are allocated from a counter: when one launch fails, later consumers get other
 		// ids than in the fault-free run. Compare the presence of a binding, not the id.
@@ -423,91 +432,122 @@ func FaultGrid() Grid {
 		},
 		Eval: func(wa any, i int, st *engine.Stats) (any, int, bool, []V) {
 			ff := wa.(*faultFixture)
-			p := ff.p
 			okPost, _, fail := ff.runBlock(-1)
 			if fail != "" {
 				return nil, 1, false, []V{vf("HARNESS", "fault-free-block-fails", "%s", fail)}
 			}
-			post, fcalls, fail := ff.runBlock(i)
-			call := "?"
-			if i < len(fcalls) {
-				call = fcalls[i]
-			}
-			st.Count("fault:" + call)
-			sample := map[string]any{"fault_at_call": i, "call": call}
-			var vs []V
-			if fail != "" {
-				return sample, 1, true, []V{vf("C19", "block-fails-on-injected-fault:"+call, "external call #%d (%s) failing makes the provider's block processing fail: %s", i, call, fail)}
-			}
-			preOwn, _ := ff.slices(ff.pre)
-			okOwn, okGlobal := ff.slices(okPost)
-			own, global := ff.slices(post)
-			var differ []string
-			for _, id := range ff.ids {
-				if !sameSlice(own[id], okOwn[id]) {
-					differ = append(differ, id)
-				}
-			}
-			op := strings.SplitN(call, "/", 2)[0]
-			if len(differ) > 1 {
-				vs = append(vs, vf("C19", "fault-affects-several-consumers:"+op, "call #%d (%s) failing changes the outcome for consumers %v", i, call, differ))
-			}
-			if !sameSlice(global, okGlobal) {
-				vs = append(vs, vf("C19", "fault-affects-provider-wide-state:"+op, "call #%d (%s) failing changes provider-wide state", i, call))
-			}
-			for _, id := range differ {
-				ph := p.K.GetConsumerPhase(post.Ctx, id)
-				switch op {
-				case "LaunchConsumer":
-					// rolled back: registered, spawn time cleared, nothing the launch wrote remains
-					ip, _ := p.K.GetConsumerInitializationParameters(post.Ctx, id)
-					_, hasClient := p.K.GetConsumerClientId(post.Ctx, id)
-					_, hasGen := p.K.GetConsumerGenesis(post.Ctx, id)
-					set, _ := p.K.GetConsumerValSet(post.Ctx, id)
-					_, hasMin := p.K.GetMinimumPowerInTopN(post.Ctx, id)
-					if ph != providertypes.CONSUMER_PHASE_REGISTERED || !ip.SpawnTime.IsZero() || hasClient || hasGen || len(set) > 0 || hasMin {
-						vs = append(vs, vf("C19", "failed-launch-not-rolled-back", "call #%d (%s) failing: consumer %s is %s, spawn %s, client=%v genesis=%v valset=%d threshold=%v", i, call, id, ph, ip.SpawnTime, hasClient, hasGen, len(set), hasMin))
-					}
-					st.Count("launch-rolled-back")
-				case "AllocateConsumerRewards":
-					// nothing of the payout may remain: the consumer's slice equals its slice before the block
-					// (modulo what EndBlock legitimately did to it, which the fault-free run shows too)
-					diffKeys := 0
-					for k, v := range own[id] {
-						if w, ok := okOwn[id][k]; !ok || !bytes.Equal(v, w) {
-							if pv, ok := preOwn[id][k]; !ok || !bytes.Equal(pv, v) {
-								diffKeys++
-							}
-						}
-					}
-					if diffKeys > 0 {
-						vs = append(vs, vf("C19", "failed-allocation-not-rolled-back", "call #%d (%s) failing: %d store entries of consumer %s are neither as before the block nor as after a successful payout", i, call, diffKeys, id))
-					}
-					st.Count("allocation-rolled-back")
-				case "SendVSCPacketsToChain":
-					if ph != providertypes.CONSUMER_PHASE_STOPPED && ph != providertypes.CONSUMER_PHASE_LAUNCHED {
-						vs = append(vs, vf("C19", "failed-send-outcome", "call #%d (%s) failing: consumer %s is %s", i, call, id, ph))
-					}
-					st.Count("send-failure-stops-only-that-consumer")
-				case "DeleteConsumerChain":
-					st.Count("deletion-with-fault")
-				}
-			}
-			if len(differ) == 0 {
-				st.Count("fault-without-effect")
-				// a swallowed error must also leave the money where the books say
-				for _, store := range []string{"bank", "distribution"} {
-					if d := env.DiffKV(env.Dump(okPost.Ctx, p.PApp, store), env.Dump(post.Ctx, p.PApp, store)); len(d) > 0 {
-						vs = append(vs, vf("C19", "swallowed-fault-changes-"+store+":"+op, "call #%d (%s) failing changes nothing in the provider store but %d entries of the %s store", i, call, len(d), store))
-					}
-				}
-			} else if op == "AllocateConsumerRewards" {
-				// coins must follow the books: if the credit stayed, the pool keeps the coins
-				for _, id := range differ {
-					_ = id
-				}
-			}
+			ff.cacheValid = false
+			sample, vs := ff.judge(ff.pre, okPost, 5*time.Second, i, st)
 			return sample, 1, true, vs
 		},
 	}
+}
+
+// judge runs the block boundary after pre once more with armed external call number i failing and
+// compares the outcome, consumer slice by consumer slice, with the fault-free outcome okPost and with
+// pre: the failing consumer operation must be rolled back, every other consumer and the provider-wide
+// state must be as in the fault-free run, and the block must not fail.
+func (ff *faultFixture) judge(pre, okPost env.State, dt time.Duration, i int, st *engine.Stats) (map[string]any, []V) {
+	p := ff.p
+	post, fcalls, fail := ff.runBlockFrom(pre, i, dt)
+	call := "?"
+	if i < len(fcalls) {
+		call = fcalls[i]
+	}
+	st.Count("fault:" + call)
+	sample := map[string]any{"fault_at_call": i, "call": call}
+	var vs []V
+	if fail != "" {
+		return sample, []V{vf("C19", "block-fails-on-injected-fault:"+call, "external call #%d (%s) failing makes the provider's block processing fail: %s", i, call, fail)}
+	}
+	// the two reference slicings are the same for every fault point of one block boundary
+	if !ff.cacheValid {
+		ff.cacheValid = true
+		ff.cPreOwn, _ = ff.slices(pre)
+		ff.cOkOwn, ff.cOkGlobal = ff.slices(okPost)
+		ff.cOkBank = map[string][]env.KV{}
+		for _, store := range []string{"bank", "distribution"} {
+			ff.cOkBank[store] = env.Dump(okPost.Ctx, p.PApp, store)
+		}
+	}
+	preOwn, okOwn, okGlobal := ff.cPreOwn, ff.cOkOwn, ff.cOkGlobal
+	own, global := ff.slices(post)
+	var differ []string
+	for _, id := range ff.idsAt(okPost) {
+		if !sameSlice(own[id], okOwn[id]) {
+			differ = append(differ, id)
+		}
+	}
+	op := strings.SplitN(call, "/", 2)[0]
+	if len(differ) > 1 {
+		vs = append(vs, vf("C19", "fault-affects-several-consumers:"+op, "call #%d (%s) failing changes the outcome for consumers %v", i, call, differ))
+	}
+	if !sameSlice(global, okGlobal) {
+		vs = append(vs, vf("C19", "fault-affects-provider-wide-state:"+op, "call #%d (%s) failing changes provider-wide state", i, call))
+	}
+	for _, id := range differ {
+		ph := p.K.GetConsumerPhase(post.Ctx, id)
+		switch op {
+		case "LaunchConsumer":
+			// rolled back: registered, spawn time cleared, nothing the launch wrote remains
+			ip, _ := p.K.GetConsumerInitializationParameters(post.Ctx, id)
+			_, hasClient := p.K.GetConsumerClientId(post.Ctx, id)
+			_, hasGen := p.K.GetConsumerGenesis(post.Ctx, id)
+			set, _ := p.K.GetConsumerValSet(post.Ctx, id)
+			_, hasMin := p.K.GetMinimumPowerInTopN(post.Ctx, id)
+			if ph != providertypes.CONSUMER_PHASE_REGISTERED || !ip.SpawnTime.IsZero() || hasClient || hasGen || len(set) > 0 || hasMin {
+				vs = append(vs, vf("C19", "failed-launch-not-rolled-back", "call #%d (%s) failing: consumer %s is %s, spawn %s, client=%v genesis=%v valset=%d threshold=%v", i, call, id, ph, ip.SpawnTime, hasClient, hasGen, len(set), hasMin))
+			}
+			st.Count("launch-rolled-back")
+		case "AllocateConsumerRewards":
+			// nothing of the payout may remain: the consumer's slice equals its slice before the block
+			// (modulo what EndBlock legitimately did to it, which the fault-free run shows too)
+			diffKeys := 0
+			for k, v := range own[id] {
+				if w, ok := okOwn[id][k]; !ok || !bytes.Equal(v, w) {
+					if pv, ok := preOwn[id][k]; !ok || !bytes.Equal(pv, v) {
+						diffKeys++
+					}
+				}
+			}
+			if diffKeys > 0 {
+				vs = append(vs, vf("C19", "failed-allocation-not-rolled-back", "call #%d (%s) failing: %d store entries of consumer %s are neither as before the block nor as after a successful payout", i, call, diffKeys, id))
+			}
+			st.Count("allocation-rolled-back")
+		case "SendVSCPacketsToChain":
+			// (with a block step of a whole unbonding period the consumer stopped by the failed send is
+			// already due for deletion in the BeginBlock that follows)
+			if ph != providertypes.CONSUMER_PHASE_STOPPED && ph != providertypes.CONSUMER_PHASE_LAUNCHED && !(ph == providertypes.CONSUMER_PHASE_DELETED && dt >= ff.p.Cfg.Unbonding) {
+				vs = append(vs, vf("C19", "failed-send-outcome", "call #%d (%s) failing: consumer %s is %s", i, call, id, ph))
+			}
+			st.Count("send-failure-stops-only-that-consumer")
+		case "DeleteConsumerChain":
+			st.Count("deletion-with-fault")
+		}
+	}
+	if len(differ) == 0 {
+		st.Count("fault-without-effect")
+		// a swallowed error must also leave the money where the books say
+		for _, store := range []string{"bank", "distribution"} {
+			if d := env.DiffKV(ff.cOkBank[store], env.Dump(post.Ctx, p.PApp, store)); len(d) > 0 {
+				vs = append(vs, vf("C19", "swallowed-fault-changes-"+store+":"+op, "call #%d (%s) failing changes nothing in the provider store but %d entries of the %s store", i, call, len(d), store))
+			}
+		}
+	} else if op == "AllocateConsumerRewards" {
+		// coins must follow the books: if the credit stayed, the pool keeps the coins
+		for _, id := range differ {
+			_ = id
+		}
+	}
+	return sample, vs
+}
+
+// idsAt lists the consumer ids issued so far in state s.
+func (ff *faultFixture) idsAt(s env.State) []string {
+	next, _ := ff.p.K.GetConsumerId(s.Ctx)
+	out := make([]string, 0, next)
+	for i := uint64(0); i < next; i++ {
+		out = append(out, fmt.Sprint(i))
+	}
+	return out
 }
